@@ -23,7 +23,9 @@ CHECKS = {
             "HashPool is model checked for crash freedom, error-iff-unreadable, no send on a closed channel, close only after all workers left, "
             "no leak, no deadlock, and termination under weak fairness; the real pool is run in watched child processes built with the race "
             "detector over list sizes around the worker-count boundary up to 10^4 and with missing / dangling / vanishing entries at every "
-            "position of short lists, repeated, under 7 CPU settings, with goroutine accounting; TLC evaluates Clean_C18 on every record.",
+            "position of short lists, with files churned concurrently (vanishing between open, stat and read), repeated, under 7 CPU settings, "
+            "with goroutine accounting; TLC evaluates Clean_C18 on every record, and validates the recorded hook traces of the real pool against "
+            "the model (HashPoolTrace: one event sequence per goroutine, TLC searches an allowed interleaving).",
             TB + "the Go race detector and runtime.NumGoroutine as observation sources; a watchdog time-out is read as a hang.", "5 C18"),
 }
 
@@ -42,7 +44,9 @@ for _pid, _txt in (
                     "space of the project directory is explored to a fixpoint, so histories of any length over the action alphabet are covered; "
                     "TLC checks the recorded graph in product with the ghost history and evaluates: " + _txt + ". The wal protocol model is "
                     "checked exhaustively against the same clauses (and the pinned variant is refuted), and the code is shown to follow the model on "
-                    "model-generated histories.", RUNTB, "5 run/cache family")
+                    "model-generated histories (trace validation, SpokRunModelTrace). A first stage of guided adversarial histories and random walks, "
+                    "judged by the same invariants, finds shallow violations quickly." + (" For C10 a real kill -9 of the built binary from inside a task "
+                    "command is also executed (24 histories) and judged by the same invariants." if _pid == "C10" else ""), RUNTB, "5 run/cache family; 9")
 
 CHECKS["C03"] = ("TaskGraph", "TLC model check of the closure + Kahn model over every configuration (initial states) incl. termination; every "
                  "dependency function x request list executed for real (repeated for map order) and judged by a TLC relation",
@@ -75,14 +79,17 @@ for _pid, _txt in (
     ("C06", "AstEq_C06: the parse tree equals the structure the text was written from, for every structure x layout"),
     ("C16", "Tiles_C16: token values are the input slices at their offsets, non-overlapping, only white space between, exact line numbers, finite, EOF at the end"),
     ("C08", "Total_C08: no panic / hang / crash, a second parse gives the identical result, every error cites a line within the input and quotes it"),
-    ("C07", "SemEq_C07: the formatted text parses and defines the same variables and tasks in the same order"),
+    ("C07", "SemEq_C07: the formatted text parses and defines the same variables and tasks in the same order; FmtOnDisk_C07: after `spok --fmt` (the "
+            "binary, as nobody) the file on disk holds exactly the formatter's text, and is untouched when spok refuses"),
     ("C11", "Idem_C11: formatting the formatted text returns it byte for byte"),
     ("C15", "Kept_C15: the sequence of non-empty comments, assignments and tasks-with-docstring is unchanged by formatting")):
     CHECKS[_pid] = ("SpokSyntax", SYNTECH,
                     "SpokSyntax.tla renders abstract spokfiles in every layout with up to two deviations from the default (small structures) and in random "
                     "layouts (thousands of random structures), stating the denoted token stream and tree; together with every string over the 25-class lexer "
                     "alphabet up to the tier's bound, the repository's spokfiles with every truncation, truncations of generated programs and loose layouts "
-                    "they are fed to the real lexer, parser and printer in watched child processes. TLC evaluates " + _txt + ".", SYNTB, "5 " + _pid)
+                    "they are fed to the real lexer, parser and printer in watched child processes. TLC evaluates " + _txt + ". The models also predict the "
+                    "token stream, the parse outcome (LexSM/ParseSM, every input up to 4 bytes) and the formatter's canonical text (SpokSyntax's printer); "
+                    "disagreement with the code is reported as drift.", SYNTB, "5 " + _pid + "; 9")
 
 CLITB = TB + ("the built binary run as uid nobody in a sandbox HOME with a scrubbed environment; side-effect log as ground truth of execution; "
               "snapshots compare path, kind, mode and SHA-256. ")
@@ -96,7 +103,8 @@ for _pid, _txt in (
     ("C13", "Conforms_C13: every command's interpolated text equals the declarative substitution and `echo \"$NAME\"` prints the spokfile value whatever the ambient "
             "environment and .env contain; a failing exec is an error and nothing runs"),
     ("C19", "Conforms_C19: every changed path is allowed by MayWrite(action, state) -- the cache directory, the spokfile under --fmt when it parses and loads, a new "
-            "spokfile and an appended .gitignore under --init -- for every TLC-enumerated (spokfile kind x action x cwd x .gitignore x .env x cache) scenario"),
+            "spokfile and an appended .gitignore under --init -- for every TLC-enumerated (spokfile kind x flag set x cwd x .gitignore x .env x cache) scenario, "
+            "the effective action being selected by the dispatch precedence of the abstract machine"),
     ("C20", "Conforms_C20: the --json document lists exactly the run's tasks in execution order with skipped flags and per-command text/stdout/stderr/status, --quiet "
             "prints nothing, --show lists every task once sorted with its docstring, --vars every variable with its value, no arguments runs default or lists")):
     CHECKS[_pid] = ("SpokCLI", CLITECH, "SpokCLI.tla's abstract machine is model-checked (FmtOnlyWhenValid, CacheOnlyByRuns, ReadOnlyActions); scenarios are built as real "
